@@ -1814,6 +1814,9 @@ func c02Main(c *Ctx, filter *c02Case) string {
 	world.Advance(world.Now().Truncate(time.Hour).Add(time.Hour).Sub(world.Now()))
 	if filter == nil {
 		c02SelfTest(c)
+		if c.Shard == 0 {
+			c02TailForgery(c, r.up)
+		}
 	}
 	if !r.build(thorough) {
 		return "world could not be built"
@@ -1923,6 +1926,7 @@ func init() {
 		},
 		shards: func(tier string) int { return 16 },
 		run:    func(c *Ctx) { c02Main(c, nil) },
+		post:   c02ForgeryNonVacuity,
 		replay: func(c *Ctx, raw json.RawMessage) string {
 			var cs c02Case
 			if err := json.Unmarshal(raw, &cs); err != nil || cs.Class == "" {
